@@ -1,5 +1,9 @@
 """Lsctp (layers/sctp.go: common header + chunk walk; serves C19 C05 C06 C07 C01) configuration for ./check"""
+import os, sys
+sys.path.insert(0, os.path.dirname(os.path.dirname(os.path.abspath(__file__))))
+from go2v_hook import go2v_hook2
 CONF = {
+    'pre': [go2v_hook2],
     'coq_sample': 15,   # cases re-evaluated inside Coq by vm_compute against the extracted runner's output
     'interesting': ['truncated-prefix-of-valid', 'option-length-extreme', 'residue-options', 'odd-payload',
                     'dirty-buffer', 'no-fixlengths', 'error-after-add'],
